@@ -5,7 +5,7 @@ From Mos Require Import Str Xml.
 
 Inductive exn :=
 | MosMergeError | MosCompletedMergeError | UnknownMosFileType | MosInvalidXML | InvalidMosCollection
-| PyAttributeError | PyKeyError | PyValueError | PyTypeError | PyIndexError | PyNotImplementedError.
+| PyAttributeError | PyKeyError | PyValueError | PyTypeError | PyIndexError | PyNotImplementedError | PyOSError.
 
 Definition exn_eqb (a b : exn) : bool :=
   match a, b with
@@ -13,7 +13,7 @@ Definition exn_eqb (a b : exn) : bool :=
   | UnknownMosFileType, UnknownMosFileType | MosInvalidXML, MosInvalidXML
   | InvalidMosCollection, InvalidMosCollection | PyAttributeError, PyAttributeError
   | PyKeyError, PyKeyError | PyValueError, PyValueError | PyTypeError, PyTypeError
-  | PyIndexError, PyIndexError | PyNotImplementedError, PyNotImplementedError => true
+  | PyIndexError, PyIndexError | PyNotImplementedError, PyNotImplementedError | PyOSError, PyOSError => true
   | _, _ => false
   end.
 
